@@ -124,8 +124,8 @@ mutual
       (∀ x ∈ handles r, ∀ v, pfxsFor cs x v = pfxsFor cs' x v) → eraseWithout cs r = eraseWithout cs' r
     | node h v ks => by
       intro hc
-      simp only [eraseWithout, hc h (by simp [handles_node]) v,
-        eraseWithoutList_congr cs cs' ks (fun x hx => hc x (by simp [handles_node, hx]))]
+      simp only [eraseWithout, hc h (by simp [fi_handles_node]) v,
+        eraseWithoutList_congr cs cs' ks (fun x hx => hc x (by simp [fi_handles_node, hx]))]
   theorem eraseWithoutList_congr (cs cs' : List (Nat × Nat)) : ∀ ks : List HTree,
       (∀ x ∈ handlesList ks, ∀ v, pfxsFor cs x v = pfxsFor cs' x v) →
       eraseWithoutList cs ks = eraseWithoutList cs' ks
@@ -133,8 +133,8 @@ mutual
     | k :: ks => by
       intro hc
       simp only [eraseWithoutList,
-        eraseWithout_congr cs cs' k (fun x hx => hc x (by simp [handlesList_cons, hx])),
-        eraseWithoutList_congr cs cs' ks (fun x hx => hc x (by simp [handlesList_cons, hx]))]
+        eraseWithout_congr cs cs' k (fun x hx => hc x (by simp [fi_handlesList_cons, hx])),
+        eraseWithoutList_congr cs cs' ks (fun x hx => hc x (by simp [fi_handlesList_cons, hx]))]
 end
 
 /-- Calls addressed to handles that are not in the tree do nothing to it. -/
@@ -171,7 +171,7 @@ mutual
       eraseWithout cs (mapAt e (rmEdit p) r) = eraseWithout ((e, p) :: cs) r
     | node h v ks => by
       intro hnd
-      simp only [handles_node, List.nodup_cons] at hnd
+      simp only [fi_handles_node, List.nodup_cons] at hnd
       unfold mapAt
       by_cases hh : h = e
       · subst hh
@@ -198,7 +198,7 @@ mutual
     | [] => fun _ => rfl
     | k :: ks => by
       intro hnd
-      simp only [handlesList_cons, List.nodup_append] at hnd
+      simp only [fi_handlesList_cons, List.nodup_append] at hnd
       simp only [mapAtList, eraseWithoutList, eraseWithout_rmEdit cs e p k hnd.1,
         eraseWithoutList_rmEdit cs e p ks hnd.2.1]
 end
@@ -214,18 +214,18 @@ mutual
       · rw [if_pos hh]
         unfold rmEdit
         by_cases hv : v.isElement = true
-        · simp only [HTree.value, hv, if_true, Fmap.atKids, HTree.setKids, HTree.kids, handles_node]
+        · simp only [HTree.value, hv, if_true, Fmap.atKids, HTree.setKids, HTree.kids, fi_handles_node]
           exact List.Sublist.cons_cons _ (handlesList_removeNsKidH_sublist p ks)
         · simp only [HTree.value, hv, Bool.false_eq_true, if_false]
           exact List.Sublist.refl _
       · rw [if_neg hh]
-        simp only [handles_node]
+        simp only [fi_handles_node]
         exact List.Sublist.cons_cons _ (handlesList_rmEdit_sublist e p ks)
   theorem handlesList_rmEdit_sublist (e p : Nat) : ∀ ks : List HTree,
       (handlesList (mapAtList e (rmEdit p) ks)).Sublist (handlesList ks)
     | [] => List.Sublist.refl _
     | k :: ks => by
-      simp only [mapAtList, handlesList_cons]
+      simp only [mapAtList, fi_handlesList_cons]
       exact List.Sublist.append (handles_rmEdit_sublist e p k) (handlesList_rmEdit_sublist e p ks)
 end
 
